@@ -129,3 +129,26 @@ package ingressanalyzer
 //@     invariant paths: pathsListed(backendServices, ing, rangeindex1)
 //@     invariant cur: forall p int :: {rule.HTTP.Paths[p]} (0 <= p && p <= rangeindex2 && rule.HTTP.Paths[p].Backend.Service != nil) ==>
 //@         (exists i int :: {backendServices[i]} 0 <= i && i < len(backendServices) && infoFor(backendServices[i], rule.HTTP.Paths[p].Backend.Service))
+
+// ---------------------------------------------------------------------------------------------
+// Service -> workloads (C10): the peers recorded for a Service are workloads of the Service's own namespace whose pod labels
+// its selector (as matchLabels) matches - computed for this Service, never taken over from another one
+// ---------------------------------------------------------------------------------------------
+//@ import metav1 "k8s.io/apimachinery/pkg/apis/meta/v1"
+//@ pred svcSelects(svc *corev1.Service, p eval.Peer) = dyntype(p, *k8s.WorkloadPeer) && unwrap(p, *k8s.WorkloadPeer) != nil && unwrap(p, *k8s.WorkloadPeer).Pod != nil
+//@     && unwrap(p, *k8s.WorkloadPeer).Pod.Namespace == svc.Namespace
+//@     && (exists sel metav1.LabelSelector :: {lsMatch(sel, unwrap(p, *k8s.WorkloadPeer).Pod.Labels)} sel.MatchLabels == svc.Spec.Selector && len(sel.MatchExpressions) == 0 && lsMatch(sel, unwrap(p, *k8s.WorkloadPeer).Pod.Labels))
+//@ func (*IngressAnalyzer).getServiceSelectedPeers
+//@   nosafety
+//@   requires ia != nil && svc != nil && ia.pe != nil
+//@   modifies *
+//@   ensures [C10] selected: res1 == nil ==> (forall i int :: {res0[i]} (0 <= i && i < len(res0)) ==> svcSelects(svc, res0[i]))
+//@   ensures [C10] svckept: svc.Namespace == old(svc.Namespace) && svc.Name == old(svc.Name)
+
+//@ func (*IngressAnalyzer).mapServiceToPeers
+//@   nosafety
+//@   requires ia != nil && svc != nil && ia.pe != nil
+//@   modifies *
+//@   ensures [C10] recorded: (res == nil && svcKnown(ia, svc.Namespace, svc.Name) && !old(svcKnown(ia, svc.Namespace, svc.Name))) ==>
+//@         (forall i int :: {ia.servicesToPortsAndPeersMap[svc.Namespace][svc.Name].peers[i]} (0 <= i && i < len(ia.servicesToPortsAndPeersMap[svc.Namespace][svc.Name].peers)) ==>
+//@              svcSelects(svc, ia.servicesToPortsAndPeersMap[svc.Namespace][svc.Name].peers[i]))
